@@ -347,8 +347,13 @@ def cleanup (len seq : Nat) (ctl : List Nat) : List Nat :=
 
 def ctlInit : List Nat := List.replicate xmpMaxModLength 0xff
 
+/-- the first call, `scan_module(ctx, 0, 0)`; its first statement is
+`if (mod->len == 0) return 0;` (nothing marked, time 0) -/
+def firstScan (scan : Nat → ScanRes) (len : Nat) : ScanRes :=
+  if len = 0 then { marks := [], time := 0 } else scan 0
+
 def scanSequencesCore (scan : Nat → ScanRes) (len : Nat) : Except Err SeqState :=
-  let r0 := scan 0
+  let r0 := firstScan scan len
   let ctl0 := applyScan len 0 0 ctlInit r0
   if r0.time < 0 then .error .load
   else
